@@ -21,7 +21,7 @@
 From Coq Require Import Lia.
 From Eupsv Require Import Base.Base Base.BaseLemmas Model.Manifest Model.ManifestSpec Model.ManifestOps
   Proofs.ManifestLib Proofs.ManifestText Proofs.ManifestTag Proofs.ManifestMap Proofs.ManifestInv
-  Proofs.ManifestMerge Proofs.ManifestRemapFile Proofs.ManifestOps.
+  Proofs.ManifestMerge Proofs.ManifestRemapFile Proofs.ManifestOps Proofs.ManifestWidth.
 
 (* ================================================================== manifests *)
 
@@ -146,6 +146,113 @@ Example taglist_hyps_inhabited :
   akeys (tl_entries ex_tl) = [lit "zeta"; lit "alpha"; lit "beta"] /\
   akeys (sorted_entries (tl_entries ex_tl)) = [lit "alpha"; lit "beta"; lit "zeta"] /\
   forallb (fun e => match e with (_, (f, _, _)) => str_eqb f (lit "Linux64") end) (tl_entries ex_tl) = true.
+Proof. vm_compute. repeat split. Qed.
+
+(* ================================================================== field widths *)
+
+(* The writers pad their columns: "%-20s %-10s %s" (tag list), "%-15s %-12s %-10s %-25s %-30s %s"
+   (manifest); Model/Manifest.v prints the same way (ljust N field ++ blank).  The round-trip theorems
+   above have no hypothesis on the length of any field - a field may be narrower than its column, fill
+   it exactly or overflow it.  The statements below make the reason explicit: a column is the field,
+   the padding (none when the field is as wide as the column or wider) and then the blank of the format,
+   so that the words of a written line are its fields whatever their lengths. *)
+
+(* a column is the field followed by at least one blank, for every column width and every field *)
+Theorem column_separated n s x :
+  ljust n s ++ c_sp :: x = s ++ repeat c_sp (S (n - length s)) ++ x /\
+  (n <= length s -> ljust n s ++ c_sp :: x = s ++ c_sp :: x).
+Proof. split; [apply column_shape|apply column_wide]. Qed.
+Print Assumptions column_separated.
+
+(* the fields of a tag-list line come back as its words: every product name, flavor (the entry's or
+   the override), version and extra column that is a word, of any length *)
+Theorem taglist_line_fields_any_width fa p f v ex :
+  word p -> word (tl_flav fa f) -> word v -> Forall word ex ->
+  words (tl_line fa p (f, v, ex)) = p :: tl_flav fa f :: v :: ex.
+Proof. apply words_tl_line_any. Qed.
+Print Assumptions taglist_line_fields_any_width.
+
+(* the same for a manifest line: product, flavor (argument, entry's or writer's), version, table file
+   and directory (none when absent) come back as the first five words *)
+Theorem manifest_line_fields_any_width fa efl d :
+  wf_dep d = true -> wf_oword fa = true -> wf_word efl = true ->
+  exists F T D,
+    norm_flavor fa efl (d_flavor d) = Some F /\ word F /\
+    norm_ostr k_low_none (d_table d) = Some T /\ word T /\
+    norm_ostr k_low_none (d_dir d) = Some D /\ word D /\
+    words (dep_line true fa efl d) = d_product d :: F :: d_version d :: T :: D :: words (ostr (d_distid d)).
+Proof. apply words_dep_line_any. Qed.
+Print Assumptions manifest_line_fields_any_width.
+
+(* the blank of the format is what separates: with padding alone a field as wide as its column runs
+   into the next field and the line has a word less *)
+Theorem padding_alone_does_not_separate n a b :
+  word a -> word b -> n <= length a -> words (ljust n a ++ b) = [a ++ b].
+Proof. apply words_glued. Qed.
+Print Assumptions padding_alone_does_not_separate.
+
+(* at the boundary: product names of 19, 20, 21 and 40 characters, flavors of 10, 11 and 15 *)
+Example taglist_lines_at_the_boundary :
+  tl_line None (lit "ctrl_platform_lsstv") (lit "Linux64", lit "1.0", [])
+    = lit "ctrl_platform_lsstv  Linux64    1.0" /\
+  tl_line None (lit "ctrl_platform_lsstvc") (lit "Linux64", lit "1.0", [])
+    = lit "ctrl_platform_lsstvc Linux64    1.0" /\
+  tl_line None (lit "ctrl_platform_lsstvcX") (lit "Linux64", lit "1.0", [])
+    = lit "ctrl_platform_lsstvcX Linux64    1.0" /\
+  tl_line None (lit "meas_extensions_photometryKron_shapeHSMx") (lit "Linux64", lit "1.0", [])
+    = lit "meas_extensions_photometryKron_shapeHSMx Linux64    1.0" /\
+  tl_line None (lit "afw") (lit "Linux64-gl", lit "1.0", [lit "x"])
+    = lit "afw                  Linux64-gl 1.0  x" /\
+  tl_line None (lit "afw") (lit "Linux64-gli", lit "1.0", [lit "x"])
+    = lit "afw                  Linux64-gli 1.0  x" /\
+  tl_line (Some (lit "DarwinX86-arm64")) (lit "afw") (lit "Linux64", lit "1.0", [lit "x"])
+    = lit "afw                  DarwinX86-arm64 1.0  x".
+Proof. vm_compute. repeat split. Qed.
+
+Definition ex_tl_wide : tlist :=
+  tl_add (tl_add (tl_add (tl_add (tl_add (tl_new (lit "current") (Some (lit "Linux64-gli")))
+    (lit "zlib") (lit "1.2.5") None [lit "x"])
+    (lit "meas_extensions_photometryKron_shapeHSMx") (lit "7.3.1.0+2") None [lit "eupspkg"; lit "meas-7.3.1.0.eupspkg"])
+    (lit "ctrl_platform_lsstvcX") (lit "3.1") None [])
+    (lit "ctrl_platform_lsstvc") (lit "3.1") (Some (lit "generic")) [])
+    (lit "ctrl_platform_lsstv") (lit "3.1") (Some (lit "Linux64")) [].
+
+(* a list with such names, under a flavor of 11 characters: what its own reader, and a reader of the
+   15-character flavor it is published for, read back *)
+Example taglist_roundtrip_at_the_boundary :
+  forallb wf_tlinfo (tl_entries ex_tl_wide) = true /\
+  match tl_read (tl_new (lit "current") (Some (lit "Linux64-gli"))) (tl_write None ex_tl_wide) with
+  | Ok t => tl_products t
+  | Err _ => []
+  end
+  = [ [lit "ctrl_platform_lsstvc"; lit "Linux64-gli"; lit "3.1"];
+           [lit "ctrl_platform_lsstvcX"; lit "Linux64-gli"; lit "3.1"];
+           [lit "meas_extensions_photometryKron_shapeHSMx"; lit "Linux64-gli"; lit "7.3.1.0+2"; lit "eupspkg";
+            lit "meas-7.3.1.0.eupspkg"];
+           [lit "zlib"; lit "Linux64-gli"; lit "1.2.5"; lit "x"] ] /\
+  match tl_read (tl_new (lit "current") (Some (lit "DarwinX86-arm64")))
+                (tl_write (Some (lit "DarwinX86-arm64")) ex_tl_wide) with
+  | Ok t => map (hd []) (tl_products t)
+  | Err _ => []
+  end
+  = [ lit "ctrl_platform_lsstv"; lit "ctrl_platform_lsstvc"; lit "ctrl_platform_lsstvcX";
+           lit "meas_extensions_photometryKron_shapeHSMx"; lit "zlib" ].
+Proof. vm_compute. repeat split. Qed.
+
+Definition ex_dep_wide : dep :=
+  mkDep (lit "meas_extensions_") (lit "7.3.1.0+svn") (Some (lit "Linux64-glibc")) (Some (lit "ups/meas_extensions_.table"))
+        (Some (lit "Linux64/meas_extensions_/7.3.1x")) None false false [].
+
+(* every column of a manifest line overflown by one character *)
+Example manifest_line_at_the_boundary :
+  dep_line true None (lit "Linux64") ex_dep_wide
+    = lit "meas_extensions_ Linux64-glibc 7.3.1.0+svn ups/meas_extensions_.table Linux64/meas_extensions_/7.3.1x None" /\
+  m_read true true false empty_manifest
+    (m_write true true None (lit "Linux64") (lit "verif") (lit "T") (lit "V")
+       (mkManifest (Some (lit "top")) (Some (lit "1.0")) [ex_dep2; ex_dep_wide; ex_dep1]))
+  = Ok (norm_manifest true None (lit "Linux64")
+       (mkManifest (Some (lit "top")) (Some (lit "1.0")) [ex_dep2; ex_dep_wide; ex_dep1])) /\
+  wf_dep ex_dep_wide = true.
 Proof. vm_compute. repeat split. Qed.
 
 (* ================================================================== one object, several operations *)
